@@ -29,6 +29,7 @@ let event_str (e : event) : string =
     (String.concat "" (List.map (fun p -> Printf.sprintf " |%d %s" (int_of_n p.c_level) (argv_str p.c_argv)) e.ev_parents))
 let trace_str (s : pst) : string = String.concat "" (List.rev_map event_str s.p_trace)
 
+(* output of inispec: wf|nwf <rendered text> <n> name=value ... *)
 (* the harness callback: fails with "E:<name>" when the first argument is the word !fail *)
 let cb (_via : bool) (d : cbd) (_pars : cbd list) : n list option =
   match d.c_argv with
@@ -78,7 +79,8 @@ let run () =
         let sepn = n_of_int (int_of_string sep) in
         let text = ini_render sepn (fnl <> "0") d in
         let es = ini_eval env d in
-        print_endline (String.concat " " (hex_of_bytes text :: string_of_int (List.length es) :: List.map (fun (a, b) -> hex_of_bytes a ^ "=" ^ hex_of_bytes b) es))
+        let wf = ini_wf env qCONF_MAX_SUBSTITUTIONS sepn d in
+        print_endline (String.concat " " ((if wf then "wf" else "nwf") :: hex_of_bytes text :: string_of_int (List.length es) :: List.map (fun (a, b) -> hex_of_bytes a ^ "=" ^ hex_of_bytes b) es))
     | ["acspec"; flags; def; tbl; tree] ->
         let h x = bytes_of_hex x in
         let word w = match String.split_on_char ':' w with
